@@ -589,12 +589,22 @@ def gen_inst(outdir, seed, k):
     ginit_val = r.getrandbits(64)
     mem_min = r.choice([1, 1, 2]); mem_max = 4
     hook = m.import_func("env", "hook", [I32], []) if has_start else None
+    # import names as toolchains produce them: double underscores, dots, dashes, '$', the letter X (the translator's
+    # escape character); the resolver must be asked for exactly these strings
+    rn = random.Random(seed * 104729 + k)
+    plain = rn.random() < 0.35
+    def pick(*names):
+        return names[0] if plain else rn.choice(names)
+    names = {"mem": (pick("env", "env", "GOT.mem", "__main__"), pick("mem", "__linear_memory", "memory.0", "Xmem")),
+             "tab": (pick("env", "env", "GOT.func", "js-env"), pick("tab", "__indirect_function_table", "t-1", "table$X")),
+             "goff": (pick("env", "env", "GOT.mem", "a__b"), pick("goff", "__memory_base", "g.off", "goff__x")),
+             "ginit": (pick("env", "env", "__main__", "Xenv"), pick("ginit", "__stack_pointer", "gXinit$", "g init"))}
     if mem_imported:
-        m.import_memory("env", "mem", mem_min, mem_max)
+        m.import_memory(names["mem"][0], names["mem"][1], mem_min, mem_max)
     if tab_imported:
-        m.import_table("env", "tab", 8, 8)
-    goff = m.import_global("env", "goff", I32, False) if use_goff else None
-    ginit = m.import_global("env", "ginit", I64, False) if use_ginit else None
+        m.import_table(names["tab"][0], names["tab"][1], 8, 8)
+    goff = m.import_global(names["goff"][0], names["goff"][1], I32, False) if use_goff else None
+    ginit = m.import_global(names["ginit"][0], names["ginit"][1], I64, False) if use_ginit else None
     if not mem_imported:
         m.memory(mem_min, mem_max, shared=shared, export="memory")
     if not tab_imported:
@@ -678,23 +688,17 @@ def gen_inst(outdir, seed, k):
     g.add("started", "", "i", [("global.get", GS)], "get")
     g.add("load8", "i", "i", [("local.get", 0), ("i32.load8_u", 0)], "load")
     g.add("store8", "ii", "", [("local.get", 0), ("local.get", 1), ("i32.store8", 0)], "store")
-    # several accesses of different types to one address inside one function (what an optimiser sees as one unit):
-    # store; store of another type (or none); load - all operands and the result travel as i64 bit patterns
-    to_t = {"i32": ["i32.wrap_i64"], "i64": [], "f32": ["i32.wrap_i64", "f32.reinterpret_i32"], "f64": ["f64.reinterpret_i64"]}
-    from_t = {"i32": ["i64.extend_i32_u"], "i64": [], "f32": ["i32.reinterpret_f32", "i64.extend_i32_u"], "f64": ["i64.reinterpret_f64"]}
-    for n, (s1, s2, ld) in enumerate(PUNS):
-        for off in (0, 16):
-            body = [("local.get", 0), ("local.get", 1)] + to_t[s1.split(".")[0]] + [(s1, off)]
-            if s2 != "-":
-                body += [("local.get", 0), ("local.get", 2)] + to_t[s2.split(".")[0]] + [(s2, off)]
-            body += [("local.get", 0), (ld, off)] + from_t[ld.split(".")[0]]
-            g.add("pun%d_o%d" % (n, off), "ijj", "j", body, "pun", "%s|%s|%s,%d" % (s1, s2, ld, off))
     g.add("size", "", "i", ["memory.size"], "size")
     g.add("grow", "i", "i", [("local.get", 0), "memory.grow"], "grow")
     g.add("calli", "i", "i", [("local.get", 0), ("call_indirect", tt)], "calli")
     g.add("minit", "iii", "", [("local.get", 0), ("local.get", 1), ("local.get", 2), ("memory.init", passive_index)], "init")
     g.write(outdir)
+    with open(os.path.join(outdir, "inst_names.h"), "w") as f:
+        for key in ("mem", "tab", "goff", "ginit"):
+            cstr = lambda t: '"' + "".join(c if c.isalnum() or c in "_.-$ " else "\\x%02x" % ord(c) for c in t) + '"'
+            f.write("#define N_%s_MOD %s\n#define N_%s %s\n" % (key.upper(), cstr(names[key][0]), key.upper(), cstr(names[key][1])))
     with open(os.path.join(outdir, "inst_desc.inc"), "w") as f:
+        f.write("static const char* const D_IMPORT_NAMES = \"%s\";\n" % " ".join("%s=%s/%s" % (k2, names[k2][0], names[k2][1]) for k2 in ("mem", "tab", "goff", "ginit")))
         f.write("static const int D_MEM_IMPORTED = %d, D_TAB_IMPORTED = %d, D_HAS_START = %d, D_USE_GOFF = %d, D_USE_GINIT = %d, D_SHARED = %d;\n" % (mem_imported, tab_imported, has_start, use_goff, use_ginit, shared))
         f.write("static const unsigned D_MEM_MIN = %d, D_MEM_MAX = %d, D_GOFF = %d, D_G0 = %du, D_G2_BITS = %du, D_HOOK_ADDR = %d;\n" % (mem_min, mem_max, goff_val, g0_init, g2_bits, hook_addr))
         f.write("static const unsigned long long D_GINIT = %dull, D_G1_CONST = 0x1122334455667788ull;\n" % ginit_val)
